@@ -4,6 +4,6 @@ CONSTANTS
   MaxFieldLen = 1
   MaxFieldLen2 = 1
   MaxFields2 = 2
-  MaxText = 4
+  MaxText = 3
 INVARIANTS T_FormatsOk T_RoundTrip T_QuoteIffNeeded T_Total T_Plain T_FixedPoint T_NeverIsLossy
 CHECK_DEADLOCK FALSE
